@@ -77,12 +77,20 @@ def flat_summary(fc):
     return {"symbols": syms, "equations": eqs, "initial_equations": ieqs, "functions": funcs}
 
 
-def flatten_handle(tree, cname):
+def flatten_handle(tree, cname, direct=False):
+    """direct: flatten the handle's own tree (flatten leaves its argument's content alone - property C05 - but
+    anything it remembers inside that tree then lives on in the handle and in its later copies); otherwise a
+    throw-away clone is flattened."""
     from pymoca import ast as past, tree as ptree
-    clone = pickle.loads(pickle.dumps(tree))
+    clone = tree if direct else pickle.loads(pickle.dumps(tree))
     try:
         flat = ptree.flatten(clone, past.ComponentRef.from_string(cname))
-        return ("ok", flat_summary(flat.classes[cname]))
+        summ = flat_summary(flat.classes[cname])
+        # the functions the model calls come back as further classes of the flat tree
+        for oname, oc in flat.classes.items():
+            if oname != cname:
+                summ["functions"][oname] = (sorted(oc.symbols.keys()), len(oc.statements))
+        return ("ok", summ)
     except RecursionError:
         return ("exc", "RecursionError")
     except Exception as e:
@@ -403,14 +411,16 @@ class History:
             return None
         cname = r.choice(cands)
         self.ops.append(["flatten", hi, cname])
-        got = flatten_handle(h["tree"], cname)
+        direct = r.random() < 0.6
+        self.ops[-1].append("direct" if direct else "on-clone")
+        got = flatten_handle(h["tree"], cname, direct)
         exp = flatten_desc(h["lib"], cname, h.get("fn"))
         self.ctx.monitor("flatten_comparisons")
         self.ctx.cover("op:flatten:on-" + h["label"])
         if got != exp:
             detail = "outcome %s vs expected %s" % (got[0] if got[0] == "ok" else got[1], exp[0] if exp[0] == "ok" else exp[1])
             if got[0] == "ok" and exp[0] == "ok":
-                for part in ("symbols", "equations", "initial_equations"):
+                for part in ("symbols", "equations", "initial_equations", "functions"):
                     if got[1][part] != exp[1][part]:
                         detail = "%s differ: %s" % (part, canon.first_difference(canon.canon(got[1][part]), canon.canon(exp[1][part])))
                         break
